@@ -164,4 +164,7 @@ def respell(draw, case):
         text += ';;'
     if semi:
         kinds.add('semicolon')
+        if draw(st.integers(0, 2)) == 0:
+            text += draw(st.sampled_from(['\n# done', '\n#', '\n  # select 1;', '\n# a\n# b', '\n\n']))
+            kinds.add('comment-after-semicolon')
     return text, sorted(kinds)
